@@ -190,6 +190,22 @@ def gen_reuse_check(ctx, msgs, fresh_obs, keyp):
                             expected=fresh_obs[k][:12], observed=got[:12])
             objs[kind] = new_obj(kind)      # report each divergence once
     ctx.count("reused_object_encodings_compared", n)
+    # batch encoding: the RETURNED objects of many gen_msg() calls are kept (not copied) and read only after the whole batch - a
+    # result must not be rewritten by a later call (no shared / recycled output buffer, on any object, of either direction)
+    held = []
+    for m, legacy in msgs:
+        try:
+            held.append(real(m).gen_msg(legacy))
+        except Exception as e:  # noqa
+            held.append(e)
+    for k, h in enumerate(held):
+        got = exc_class(h) if isinstance(h, Exception) else [0] + list(h)
+        if got != fresh_obs[k]:
+            ctx.oracle_fail("the result of gen_msg() changed after other messages were encoded (results of a batch read after the batch)",
+                            dict(msg=short(msgs[k][0]), legacy=msgs[k][1], batch=len(held), position=k), key=keyp + ":aliased-output",
+                            expected=fresh_obs[k][:12], observed=got[:12])
+            break
+    ctx.count("batched_encodings_compared", len(held))
 
 
 def from_real(o):
@@ -282,6 +298,24 @@ def reuse_check(ctx, dgrams, fresh_obs, keyp):
                                 observed={k: (a[k] if k != "burst" else (None if a[k] is None else len(a[k]))) for k in diff})
             n += 1
     ctx.count("reused_object_parses_compared", n)
+    # batch parsing: many objects parse, all are kept and read only after the whole batch - a parsed message must not change when
+    # another object parses another datagram (no field / burst storage shared between objects)
+    held = []
+    for j, t in enumerate(dgrams[:400]):
+        o = new_obj(t[0])
+        try:
+            o.parse_msg(bytearray(t[1]))
+            held.append((j, o))
+        except Exception:  # noqa
+            pass
+    for j, o in held:
+        got = [0] + enc(from_real(o))
+        if fresh_obs[j][0] == 0 and got != fresh_obs[j]:
+            ctx.oracle_fail("a parsed message changed after other objects parsed other datagrams (objects of a batch read after the batch)",
+                            dict(kind=dgrams[j][0], octets=dgrams[j][1], position=j, batch=len(held)), key=keyp + ":aliased-object",
+                            expected=fresh_obs[j][:14], observed=got[:14])
+            break
+    ctx.count("batched_parses_compared", len(held))
 
 
 def carried(m):
